@@ -85,7 +85,7 @@ Definition dep_live (dl : N) (s : sp) (d : dep) : bool :=
 Definition evaluating (o : op) (fin : bool) : bool :=
   match o with ORegOp _ | ORegSr _ | ODeregOp _ | ODeregSr _ => true | OFin _ => fin | _ => false end.
 
-Definition spec_step (w : nat) (dl : N) (s : sp) (o : op) (b : obs) : sp * list N :=
+Definition spec_step (w : nat) (dl : N) (hold : bool) (s : sp) (o : op) (b : obs) : sp * list N :=
   (* 1. the history: clock, registrations *)
   let s1 :=
     match o with
@@ -190,6 +190,11 @@ Definition spec_step (w : nat) (dl : N) (s : sp) (o : op) (b : obs) : sp * list 
             let f' := if isop then MkInfl (i_id f) (i_ops f) (i_srs f) (n :: i_aops f) (i_asrs f)
                       else MkInfl (i_id f) (i_ops f) (i_srs f) (i_aops f) (n :: i_asrs f) in
             if subset (i_ops f') (i_aops f') && subset (i_srs f') (i_asrs f') then
+              if hold then   (* the snapshot file write is held by the storage: nothing can be published yet *)
+                (MkSp (sp_now s4) (sp_seen s4) (sp_reg s4) (sp_pend s4) (sp_pend_latest s4) (sp_cur s4)
+                      (sp_latest s4) (sp_maxcid s4) None (sp_prev s4),
+                 if o_published b =? 0 then [] else [16])
+              else
               (MkSp (sp_now s4) (sp_seen s4) (sp_reg s4) (sp_pend s4) (sp_pend_latest s4) (sp_cur s4)
                     (if o_published b =? id then id else sp_latest s4) (sp_maxcid s4) None (sp_prev s4),
                if o_published b =? id then [] else [15])
@@ -219,12 +224,46 @@ Definition spec_step (w : nat) (dl : N) (s : sp) (o : op) (b : obs) : sp * list 
         (sp_maxcid s5) (sp_infl s5) (o_status b),
    e_split ++ e_dep ++ e_run ++ e_wait ++ e_tick ++ e_ack).
 
-Fixpoint spec_steps (w : nat) (dl : N) (s : sp) (l : list (op * obs)) : list N :=
+(* slow storage: OHoldW arms a gate on the next snapshot file write (one at a time), OReleaseW lets the held write
+   return. [x_writing] = id of the fully acknowledged checkpoint whose write is held (0 none). *)
+Record spx := MkSpx { x_sp : sp; x_hold : bool; x_writing : N }.
+Definition spx0 : spx := MkSpx sp0 false 0.
+
+Definition spec_stepx (w : nat) (dl : N) (x : spx) (o : op) (b : obs) : spx * list N :=
+  let s := x_sp x in
+  match o with
+  | OHoldW =>
+      (if x_writing x =? 0 then MkSpx s true 0 else x, if o_published b =? 0 then [] else [16])
+  | OReleaseW =>
+      if x_writing x =? 0 then (x, if o_published b =? 0 then [] else [16])
+      else
+        let wr := x_writing x in
+        if sp_latest s <? wr then
+          (* nothing newer was published meanwhile: the checkpoint becomes current now *)
+          (MkSpx (MkSp (sp_now s) (sp_seen s) (sp_reg s) (sp_pend s) (sp_pend_latest s) (sp_cur s)
+                       (if o_published b =? wr then wr else sp_latest s) (sp_maxcid s) (sp_infl s) (sp_prev s)) (x_hold x) 0,
+           if o_published b =? wr then [] else [15])
+        else
+          (* a newer checkpoint is published: the late one must not become current again, or a redeployment would
+             restore an id below the greatest published id *)
+          (MkSpx s (x_hold x) 0, if o_published b =? 0 then [] else [107])
+  | _ =>
+      let '(s1, es) := spec_step w dl (x_hold x) s o b in
+      let held :=
+        match o, sp_infl s, sp_infl s1, es with
+        | OAckOp _ _, Some f, None, [] => if x_hold x then i_id f else 0
+        | OAckSr _ _, Some f, None, [] => if x_hold x then i_id f else 0
+        | _, _, _, _ => 0
+        end in
+      (if held =? 0 then MkSpx s1 (x_hold x) (x_writing x) else MkSpx s1 false held, es)
+  end.
+
+Fixpoint spec_steps (w : nat) (dl : N) (x : spx) (l : list (op * obs)) : list N :=
   match l with
   | [] => []
-  | (o, b) :: t => let '(s1, es) := spec_step w dl s o b in
+  | (o, b) :: t => let '(x1, es) := spec_stepx w dl x o b in
                    match es with
-                   | [] => spec_steps w dl s1 t
+                   | [] => spec_steps w dl x1 t
                    | _ => es
                    end
   end.
@@ -268,7 +307,7 @@ Fixpoint state_steps (s : ost) (redeployed : bool) (l : list (sop * N)) : list N
 Definition check_case (c : case) : list N :=
   match c with
   | JobCase w dl steps =>
-      diff_steps (MkCfg (N.to_nat w) dl current) init steps ++ spec_steps (N.to_nat w) dl sp0 steps
+      diff_steps (MkCfg (N.to_nat w) dl current) init steps ++ spec_steps (N.to_nat w) dl spx0 steps
   | SlotCase pre_ok refuse redeploy runners a first r1 late rl b second r2 =>
       (if pre_ok then [] else [104]) ++ slot_check refuse redeploy runners a first r1 late rl b second r2
   | StateCase steps => state_steps ost0 false steps
